@@ -144,6 +144,7 @@ def run(ck: Check, prog: Program) -> None:
     ck.require('SENT-TRUTH', 'conditions examined in the message model', n_sites, 20)
 
     _presence_by_identity(ck, prog)
+    version_exact(ck, prog)
     _atomic_append(ck, prog, interp)
     _empty_batch_request(ck, prog)
     ck.extra['contexts_analysed'] = interp.contexts
@@ -151,6 +152,46 @@ def run(ck: Check, prog: Program) -> None:
     ck.extra['assumed_total_callees'] = {k: len(v) for k, v in sorted(interp.assumed_total.items())}
     if interp.depth_cutoffs:
         raise AnalysisError(f'call depth bound hit at {sorted(interp.depth_cutoffs)}')
+
+
+
+def version_exact(ck: Check, prog: Program, quals=None) -> None:
+    """VERSION-EXACT: the `jsonrpc` member is compared with the version constant AS READ from the document.  Converted to text first
+    (`str(...)`, an f-string, `format`) the JSON number 2.0 becomes '2.0' and a document of the wrong type is accepted as version 2.0."""
+    from ..flow import Flow
+    quals = quals or (V20 + '.Request.from_json', V20 + '.Response.from_json', V20 + '.BatchResponse.from_json')
+    n_cmp = 0
+    for q in quals:
+        f = prog.funcs.get(q)
+        if f is None:
+            continue
+        ck.functions.add(q)
+        cfg = CFG(f, prog)
+        fl = Flow(cfg)
+        jp = json_param(f)
+        for c in cfg.nodes:
+            if c.kind != 'cond' or not isinstance(c.ast, ast.Compare) or len(c.ast.ops) != 1:
+                continue
+            sides = [c.ast.left, c.ast.comparators[0]]
+            if not any((dotted(x) or '').endswith('.version') for x in sides):
+                continue
+            other = [x for x in sides if not (dotted(x) or '').endswith('.version')]
+            if not other:
+                continue
+            n_cmp += 1
+            for al in fl.alts(c, other[0]):
+                v = al.expr
+                raw = isinstance(v, ast.Subscript) and dotted(v.value) == jp or \
+                    isinstance(v, ast.Call) and isinstance(v.func, ast.Attribute) and v.func.attr == 'get' and dotted(v.func.value) == jp
+                conv = isinstance(v, ast.JoinedStr) or isinstance(v, ast.Call) and dotted(v.func) in ('str', 'repr', 'format', 'ascii') or \
+                    isinstance(v, ast.Call) and isinstance(v.func, ast.Attribute) and v.func.attr in ('format', 'strip', 'lower', 'upper')
+                if conv and not raw:
+                    ck.finding('VERSION-EXACT', q, f'version compared after conversion: {norm(v)[:40]}', f.module.rel, c.line,
+                               f'`{norm(c.ast)}` compares `{norm(v)[:60]}` — the member converted to text — with the protocol version: the JSON number '
+                               f'2.0 (and anything else whose text is "2.0") passes, so a document with a wrongly typed `jsonrpc` member is accepted '
+                               f'instead of being refused as an invalid request / response')
+    ck.ob('VERSION-EXACT', f'{n_cmp} comparisons with the protocol version use the member as read from the document',
+          not any(f_.rule == 'VERSION-EXACT' for f_ in ck.findings), nontrivial=n_cmp > 0)
 
 
 def _presence_by_identity(ck: Check, prog: Program) -> None:
